@@ -350,7 +350,11 @@ func (fr *Frame) applyContract(ins ssa.Instruction, fc *FuncContract, callee *ss
 			vc.failed = fmt.Errorf("%s: requires of %s: %v", vc.name, fc.Key, err)
 			return nil
 		}
-		if fr.top || true {
+		if tc := fr.topFrame().c; tc != nil && tc.Opts["callee-requires"] == "assume" {
+			// "opt callee-requires=assume": this function is under contract for site clauses only; the preconditions of the
+			// functions it calls are data assumptions it inherits (they were unchecked before it had a contract, too)
+			vc.note("precondition of %s assumed at its call sites in %s (opt callee-requires=assume): %s", shortKey(key), shortKey(fr.topFrame().fn.String()), r.Src)
+		} else {
 			vc.addObl(&Obligation{Name: fmt.Sprintf("requires@%s/%d:%s", shortKey(key), ord, r.Name), Kind: "requires", PC: *pc, Goal: t, Src: r.Src})
 		}
 		*pc = fr.assume(*pc, t)
@@ -462,10 +466,13 @@ func (fr *Frame) callEffect(ci ssa.CallInstruction) effect {
 			if s, ok := c.Args[0].Type().Underlying().(*types.Slice); ok {
 				eff.names[vc.d.sliceHeap(s.Elem())] = true
 			}
-		case "delete":
+		case "delete", "clear":
 			if m, ok := c.Args[0].Type().Underlying().(*types.Map); ok {
 				a, b, cc := vc.d.mapHeaps(m)
 				eff.names[a], eff.names[b], eff.names[cc] = true, true, true
+			}
+			if s, ok := c.Args[0].Type().Underlying().(*types.Slice); ok {
+				eff.names[vc.d.sliceHeap(s.Elem())] = true
 			}
 		case "close", "panic", "print", "println", "recover":
 		}
@@ -611,7 +618,6 @@ func (fr *Frame) builtin(ins ssa.Instruction, b *ssa.Builtin, c *ssa.CallCommon,
 		if !ok {
 			break
 		}
-		vc.note("append modelled as copy into a fresh backing array (no aliasing of spare capacity)")
 		h := d.sliceHeap(st0.Elem())
 		es := d.sortOf(st0.Elem())
 		s, t := args[0], args[1]
@@ -634,11 +640,38 @@ func (fr *Frame) builtin(ins ssa.Instruction, b *ssa.Builtin, c *ssa.CallCommon,
 		if tsel != "" {
 			vc.axiom(fmt.Sprintf("(forall ((i Int)) (! (=> (and (<= %s i) (< i (+ %s %s))) (= (select %s i) %s)) :pattern ((select %s i))))", slLen(s), slLen(s), tlen, na, tsel, na))
 		}
-		vc.stSet(st, h, fmt.Sprintf("(store %s %s %s)", heap, ref, na))
 		nl := fmt.Sprintf("(+ %s %s)", slLen(s), tlen)
 		nc := vc.fresh("appcap", "Int")
 		vc.axiom(fmt.Sprintf("(>= %s %s)", nc, nl))
-		return []string{fmt.Sprintf("(mk-slice %s 0 %s %s)", ref, nl, nc)}
+		// Spare capacity: when the elements fit into the capacity of the first operand, Go writes them into ITS backing
+		// array and the result shares that array. Three cases: (A) they do not fit: a new array; (B) they fit and the
+		// operand starts at offset 0: the operand's array, changed from its length on; (C) they fit and the operand has an
+		// offset: the whole heap component is given up (no positional model for that case).
+		scap := fmt.Sprintf("(s.cap %s)", s)
+		soff := fmt.Sprintf("(s.off %s)", s)
+		if p := slParts(s); p != nil {
+			scap, soff = p[3], p[1]
+		}
+		fits := vc.define("appfits", "Bool", fmt.Sprintf("(and (not (= %s 0)) (<= %s %s))", slArr(s), nl, scap))
+		if scap == "0" || fits == "false" || tsel == "" {
+			vc.stSet(st, h, fmt.Sprintf("(store %s %s %s)", heap, ref, na))
+			return []string{fmt.Sprintf("(mk-slice %s 0 %s %s)", ref, nl, nc)}
+		}
+		vc.note("append may reuse spare capacity of its first operand: the result is a new array only if the elements do not fit")
+		// in place: the operand's array, unchanged except for the positions from its length on
+		nb := vc.fresh("appinpl", "(Array Int "+es+")")
+		lo := fmt.Sprintf("(+ %s %s)", soff, slLen(s))
+		tselJ := strings.ReplaceAll(tsel, "(- i "+slLen(s)+")", "(- (- j "+soff+") "+slLen(s)+")")
+		vc.axiom(fmt.Sprintf("(=> %s (forall ((j Int)) (! (= (select %s j) (ite (and (<= %s j) (< j (+ %s %s))) %s (select (select %s %s) j))) :pattern ((select %s j)))))",
+			fits, nb, lo, soff, nl, tselJ, heap, slArr(s), nb))
+		vc.stSet(st, h, fmt.Sprintf("(ite %s (store %s %s %s) (store %s %s %s))", fits, heap, slArr(s), nb, heap, ref, na))
+		rr := vc.define("apparr", "Int", fmt.Sprintf("(ite %s %s %s)", fits, slArr(s), ref))
+		rc := vc.define("apprcap", "Int", fmt.Sprintf("(ite %s %s %s)", fits, scap, nc))
+		ro := "0"
+		if soff != "0" {
+			ro = vc.define("approff", "Int", fmt.Sprintf("(ite %s %s 0)", fits, soff))
+		}
+		return []string{fmt.Sprintf("(mk-slice %s %s %s %s)", rr, ro, nl, rc)}
 	case "copy":
 		dt, ok := c.Args[0].Type().Underlying().(*types.Slice)
 		if !ok || d.sortOf(c.Args[1].Type()) != "Slice" {
@@ -657,6 +690,16 @@ func (fr *Frame) builtin(ins ssa.Instruction, b *ssa.Builtin, c *ssa.CallCommon,
 	case "delete":
 		if mt, ok := c.Args[0].Type().Underlying().(*types.Map); ok {
 			fr.mapDelete(st, mt, args[0], args[1])
+			return nil
+		}
+	case "clear":
+		// clear(m): the map (shared by every alias of it) has no entries afterwards; clear of a nil map is a no-op
+		if mt, ok := c.Args[0].Type().Underlying().(*types.Map); ok {
+			dom, _, card := d.mapHeaps(mt)
+			m := args[0]
+			dh, ch := vc.stGet(st, dom), vc.stGet(st, card)
+			vc.stSet(st, card, fmt.Sprintf("(ite (= %s 0) %s (store %s %s 0))", m, ch, ch, m))
+			vc.stSet(st, dom, fmt.Sprintf("(ite (= %s 0) %s (store %s %s ((as const (Array %s Bool)) false)))", m, dh, dh, m, d.sortOf(mt.Key())))
 			return nil
 		}
 	case "close", "print", "println":
